@@ -249,7 +249,7 @@ def parse_rvalue(txt):
         ops = tuple(parse_operand(x) for x in (split_top(inner) if inner else []))
         return ('adt', head.strip(), None, ops, None)
     # unit variant:  Option::<T>::None  /  unit struct
-    if re.match(r'^[\w:<>, &\'\[\]\(\);]+$', txt):
+    if re.match(r'^[\w:<>, &\'\[\]\(\);+*!-]+$', txt) and not txt.startswith(('move ', 'copy ', 'const ')):
         return ('adt', txt, None, (), None)
     raise ParseError('rvalue ' + txt)
 
@@ -545,6 +545,43 @@ def learn_field_names(prog):
                     prog.field_names.setdefault(st[2][1].split('::')[-1], st[2][4])
 
 
+def learn_user_enums(prog, src_root, crate='rws'):
+    """enum definitions of the crate, read from its sources: name -> variant names in declaration order (= discriminants for
+    enums without explicit values).  Needed for `discriminant(_x)` / aggregates of user-defined enums."""
+    import glob
+    enums = getattr(prog, 'user_enums', None)
+    if enums is None: enums = prog.user_enums = {}
+    for path in glob.glob(os.path.join(src_root, '**', '*.rs'), recursive=True):
+        try: txt = open(path, encoding='utf-8', errors='replace').read()
+        except OSError: continue
+        txt = re.sub(r'//[^\n]*', '', txt)
+        txt = re.sub(r'/\*.*?\*/', '', txt, flags=re.S)
+        for mm in re.finditer(r'\benum\s+(\w+)\s*(<[^{]*>)?\s*\{', txt):
+            name = mm.group(1); i = mm.end(); depth = 1; j = i
+            while j < len(txt) and depth:
+                if txt[j] in '{(<[': depth += 1
+                elif txt[j] in '})]': depth -= 1
+                elif txt[j] == '>' and txt[j - 1] not in '-=': depth -= 1
+                j += 1
+            body = txt[i:j - 1]
+            variants = []; d = 0; cur = ''
+            for ch in body:
+                if ch in '{(<[': d += 1
+                elif ch in '})]' or (ch == '>'): d -= 1
+                if ch == ',' and d == 0: variants.append(cur); cur = ''
+                else: cur += ch
+            if cur.strip(): variants.append(cur)
+            names = []
+            explicit = False
+            for v in variants:
+                v = re.sub(r'#\[[^\]]*\]', '', v).strip()
+                mv = re.match(r'^(\w+)', v)
+                if mv: names.append(mv.group(1))
+                if re.search(r'=\s*-?\d', v): explicit = True
+            if names and not explicit and name not in ('Option', 'Result'): enums[name] = names
+    return enums
+
+
 def dump_mir(repo, scratch, package=None, timeout=600):
     """run rustc on the current working tree of `repo`; returns MIR text.  `scratch` is the cargo target dir."""
     env = dict(os.environ, CARGO_NET_OFFLINE='true', CARGO_TARGET_DIR=scratch)
@@ -594,6 +631,7 @@ def _load_program_locked(repo, scratch, deps, prog, info, t0):
     import time
     txt = dump_mir(repo, scratch)
     parse_program(txt, repo, prog, 'rws')
+    learn_user_enums(prog, os.path.join(repo, 'src'))
     info['mir_lines']['rws'] = txt.count('\n'); info['mir_sha256']['rws'] = hashlib.sha256(txt.encode()).hexdigest()[:16]
     for d in deps:
         t = dump_mir(repo, scratch, package=d)
